@@ -89,41 +89,51 @@ structure Locus where
   division : Bytes
   date : Date
 
+/-- a failing element of the LOCUS `Seq`: `Seq` pops, `.Children` (a `Map`) pops — whatever
+frames the failing element leaked are popped in their place -/
+def locusBack {α} : P α := do pop; pop; fail
+
+/-- one element of the `Seq` -/
+def locusTry {α} (p : P α) : P α := do
+  match ← attempt p with
+  | some a => pure a
+  | none => locusBack
+
+/-- `pars.Any(" bp", " aa")` -/
+def bpOrAa : P Unit := do
+  match ← attempt (lit (bs " bp")) with
+  | some _ => pure ()
+  | none => lit (bs " aa")
+
+/-- `pars.Maybe(pars.Count(pars.Filter(ascii.IsUpper), 3).Map(pars.Cat))`: three upper-case
+bytes, or nothing -/
+def divisionParser : P Bytes := do
+  let s ← getS
+  match s.rest with
+  | a :: b :: c :: _ =>
+    if isUpper a && isUpper b && isUpper c then do advanceN 3; pure [a, b, c] else pure []
+  | _ => pure []
+
 /-- `genbankLocusParser`: the `Seq` of fourteen parsers under `.Children`: two frames, both
-popped on a failure (whatever frames the failing element leaked are popped in their place) -/
+popped on a failure -/
 def locusParser : P Locus := do
   push; push
-  let back {α} : P α := do pop; pop; fail
-  let orBack {α} (p : P α) : P α := do
-    match ← attempt p with
-    | some a => pure a
-    | none => back
-  orBack (lit (bs "LOCUS"))
+  locusTry (lit (bs "LOCUS"))
   let sp1 ← spaces
-  let name ← orBack (word notSpace)
+  let name ← locusTry (word notSpace)
   let _ ← spaces
-  let length ← orBack int
-  -- `pars.Any(" bp", " aa")`
-  orBack (do
-    match ← attempt (lit (bs " bp")) with
-    | some _ => pure ()
-    | none => lit (bs " aa"))
+  let length ← locusTry int
+  locusTry bpOrAa
   let _ ← spaces
-  let mol ← orBack (word notSpace)
+  let mol ← locusTry (word notSpace)
   let _ ← spaces
-  let top ← orBack (word notSpace)
+  let top ← locusTry (word notSpace)
   let _ ← spaces
-  -- `pars.Maybe(pars.Count(pars.Filter(ascii.IsUpper), 3).Map(pars.Cat))`
-  let s ← getS
-  let division ←
-    match s.rest with
-    | a :: b :: c :: _ =>
-      if isUpper a && isUpper b && isUpper c then do advanceN 3; pure [a, b, c] else pure []
-    | _ => pure []
+  let division ← divisionParser
   let _ ← spaces
   let dl ← line
   match asDate dl with
-  | none => back
+  | none => locusBack
   | some date =>
     drop; drop
     pure ⟨sp1.length + 5, name, length, mol, top, division, date⟩
